@@ -44,6 +44,55 @@ func init() {
 	vPasswords = append(vPasswords, "  password  ", "PASSWORD", "password\n", " G7$kq!v9Zp#2mL", "G7$KQ!V9ZP#2ML", "\tletmein", "monkey\x00G7$kq!v9Zp#2mL")
 }
 
+// genPassword: half of the draws come from the fixed list, the other half are composed along the
+// families zxcvbn's matchers know — dictionary words and names, l33t spellings of them (from one
+// substitution to every letter, with every alternative of the table), reversed and re-cased words,
+// keyboard walks, repeats, sequences, dates and years, glued together with separators.
+func genPassword(r *vrng) string {
+	if r.Bool() {
+		return vPasswords[r.Intn(len(vPasswords))]
+	}
+	words := []string{"password", "baseball", "computer", "dragon", "monkey", "letmein", "iloveyou", "jennifer", "michael", "football",
+		"sunshine", "princess", "welcome", "shadow", "master", "superman", "trustno", "whatever", "alice", "whawty", "abigail", "elizabeth",
+		"scoobydoo", "blessing", "qazwsx", "testing", "tigger", "zealots", "exotic"}
+	leet := map[byte]string{'a': "4@", 'b': "8", 'c': "({[<", 'e': "3", 'g': "69", 'i': "1!|", 'l': "1|7", 'o': "0", 's': "$5", 't': "+7", 'x': "%", 'z': "2"}
+	walks := []string{"qwertyuiop", "asdfghjkl", "zxcvbnm,./", "1qaz2wsx3edc", "qazwsxedc", "!@#$%^&*()", "poiuytrewq", "6yhn7ujm"}
+	var parts []string
+	for n := 1 + r.Intn(3); n > 0; n-- {
+		switch r.Intn(8) {
+		case 0, 1, 2, 3:
+			w := []byte(words[r.Intn(len(words))])
+			prob := []int{0, 3, 10, 10}[r.Intn(4)] // out of 10
+			for i := range w {
+				if alt, ok := leet[w[i]]; ok && r.Intn(10) < prob {
+					w[i] = alt[r.Intn(len(alt))]
+				}
+			}
+			switch r.Intn(5) {
+			case 0:
+				w[0] = strings.ToUpper(string(w[:1]))[0]
+			case 1:
+				w = []byte(strings.ToUpper(string(w)))
+			case 2:
+				for i, j := 0, len(w)-1; i < j; i, j = i+1, j-1 {
+					w[i], w[j] = w[j], w[i]
+				}
+			}
+			parts = append(parts, string(w))
+		case 4:
+			wk := walks[r.Intn(len(walks))]
+			parts = append(parts, wk[:3+r.Intn(len(wk)-2)])
+		case 5:
+			parts = append(parts, strings.Repeat(string(rune('a'+r.Intn(26))), 2+r.Intn(8)))
+		case 6:
+			parts = append(parts, []string{"abcdefgh", "98765432", "13579", "hijklmn", "ZYXWV"}[r.Intn(5)])
+		default:
+			parts = append(parts, []string{"1989", "2024", "31.12.1989", "7/4/76", "19991231", "0101", "2001-09-11"}[r.Intn(7)])
+		}
+	}
+	return strings.Join(parts, []string{"", "", "-", " ", "!", "_"}[r.Intn(6)])
+}
+
 func suiteV17(c *vctx) {
 	r := c.r
 	// (1) the condition parser and the constructor
@@ -115,7 +164,15 @@ func suiteV17(c *vctx) {
 	for ai := 0; ai < nag; ai++ {
 		kind := []string{"score", "entropy", "time"}[(ai+c.shard)%3]
 		// thresholds around the values actually observed
-		pwU := vPasswords[r.Intn(len(vPasswords))]
+		pwU := genPassword(r)
+		// a third of the agents get their threshold placed at the estimate of a password that contains
+		// the user's name in some letter case: the same password is then written for her and for others
+		nameFam := []string{"Alice.Wonderland", "ALICE-2024-x", "aLiCe", "Alice", "alice", "G7$kq-ALICE-zP", "4L1C3-alice", "ecila.Alice9"}
+		planned := ""
+		if r.Intn(3) == 0 {
+			planned = nameFam[r.Intn(len(nameFam))]
+			pwU = planned
+		}
 		z0 := zxcvbn.PasswordStrength(pwU, []string{"alice", "whawty"})
 		var thr uint64
 		switch kind {
@@ -125,6 +182,18 @@ func suiteV17(c *vctx) {
 			thr = uint64(math.Max(0, math.Floor(z0.Entropy)+float64(r.Intn(3)-1)))
 		default:
 			thr = uint64(math.Max(0, math.Min(1e15, math.Floor(z0.CrackTime)+float64(r.Intn(3)-1))))
+		}
+		if planned != "" {
+			// … strictly between her estimate and that of a user whose name is not in it, where they differ
+			zo := zxcvbn.PasswordStrength(planned, []string{"m0", "whawty"})
+			switch {
+			case kind == "score" && zo.Score > z0.Score:
+				thr = uint64(z0.Score + 1)
+			case kind == "entropy" && math.Floor(zo.Entropy) > math.Floor(z0.Entropy):
+				thr = uint64(math.Floor(z0.Entropy) + 1)
+			case kind == "time" && math.Floor(zo.CrackTime) > math.Floor(z0.CrackTime):
+				thr = uint64(math.Min(1e15, math.Floor(z0.CrackTime)+1))
+			}
 		}
 		cond := fmt.Sprintf("%s >= %d", kind, thr)
 		name := fmt.Sprintf("pol%d", ai)
@@ -163,7 +232,7 @@ func suiteV17(c *vctx) {
 		type forcedWrite struct{ path, user, pw string }
 		var forced []forcedWrite
 		for k := 0; k < nw; k++ {
-			pw := vPasswords[r.Intn(len(vPasswords))]
+			pw := genPassword(r)
 			if r.Intn(4) == 0 {
 				pw += fmt.Sprint(r.Intn(100))
 			}
@@ -178,8 +247,10 @@ func suiteV17(c *vctx) {
 			// the SAME password for two different users one after the other, one of whose names it contains
 			// in another letter case: the verdict is a function of (password, user), whoever asked before
 			if len(forced) == 0 && r.Intn(6) == 0 {
-				fam := []string{"Alice.Wonderland", "ALICE-2024-x", "aLiCe", "Alice", "alice", "G7$kq-ALICE-zP"}
-				fpw := fam[r.Intn(len(fam))]
+				fpw := nameFam[r.Intn(len(nameFam))]
+				if planned != "" && r.Intn(4) != 0 {
+					fpw = planned
+				}
 				other := fmt.Sprintf("m%d", k)
 				w1 := forcedWrite{[]string{"iface-add", "http-add"}[r.Intn(2)], other, fpw}
 				w2 := forcedWrite{[]string{"iface-update", "http-update-admin", "http-update-self"}[r.Intn(3)], "alice", fpw}
